@@ -600,6 +600,10 @@ HELPER_MENU = [
     ('animator', 'animator', []), ('quadbounds', 'quadbounds', []), ('worldtext', 'worldtext', []),
     ('appliesto', 'appliesto', ['A', 'B']), ('orderby', 'orderby', ['key2', 'key1']),
     ('unknown0', 'foo', []), ('unknown2', 'foo', ['a', 'b c']),
+    # blank arguments (the writer emits `foo(one, , three)`; a lone blank argument is `foo()` = no arguments, not representable)
+    ('unknown_blank_mid', 'foo', ['one', '', 'three']), ('unknown_blank_last', 'foo', ['a', '']), ('unknown_blank_first', 'foo', ['', 'b']),
+    ('line_blank', 'line', ['255 255 255', 'targetname', '']), ('cyl_blank', 'cylinder', ['255 255 255', 'targetname', 'start', '']),
+    ('sphere_blank', 'sphere', ['', '255 0 0']),
 ]
 CORE_HELPERS = {'halfgridsnap', 'size1', 'iconsprite1', 'unknown2', 'orderby', 'sphere0'}
 
